@@ -22,6 +22,7 @@ import (
 	"github.com/bronlabs/bron-crypto/pkg/network"
 
 	"verifmc/engine"
+	"verifmc/proto"
 )
 
 func TestMain(m *testing.M) { engine.Main(m, "C11", "model_checking") }
@@ -107,11 +108,12 @@ func r2(w *world) {
 // relative to a receive for {2,3}; variant picks what is retransmitted.
 func r3(variant int) scenario {
 	return func(w *world) {
-		w.net.Inject(2, w.me, wire("a", []byte("2a")))
+		first := [][]byte{[]byte("2a"), {}, nil}[mcrt.Choose("first-payload", 3)]
+		w.net.Inject(2, w.me, wire("a", first))
 		w.net.Inject(3, w.me, wire("a", []byte("3a")))
 		switch variant {
 		case 0: // identical retransmission
-			w.net.Inject(2, w.me, wire("a", []byte("2a")))
+			w.net.Inject(2, w.me, wire("a", first))
 		case 1: // conflicting retransmission
 			w.net.Inject(2, w.me, wire("a", []byte("2A")))
 		case 2: // conflicting retransmission from a sender the receive does not wait for (same id)
@@ -138,13 +140,15 @@ func r3(variant int) scenario {
 // identical => must succeed.
 func r3b(conflicting bool) scenario {
 	return func(w *world) {
+		// payload alphabet of the FIRST message: ordinary, empty, nil (CBOR null) — boundary values of the payload
+		first := [][]byte{[]byte("2a"), {}, nil}[mcrt.Choose("first-payload", 3)]
 		w.net.Inject(2, w.me, wire("warm", []byte("w")))
-		w.net.Inject(2, w.me, wire("a", []byte("2a")))
+		w.net.Inject(2, w.me, wire("a", first))
 		w.net.Inject(3, w.me, wire("a", []byte("3a")))
 		if conflicting {
 			w.net.Inject(2, w.me, wire("a", []byte("2A")))
 		} else {
-			w.net.Inject(2, w.me, wire("a", []byte("2a")))
+			w.net.Inject(2, w.me, wire("a", first))
 		}
 		done := 0
 		mcrt.GoNamed("warm", func() { w.recv("recv-warm", w.rt, bg, "", "warm", nil, 2); done++ })
@@ -332,6 +336,24 @@ func TestCheck(t *testing.T) {
 	engine.Explore(func(x *engine.X) { e1(x, 3) }, engine.Opts{Name: "E1-echo-n3", DevBound: eb, Serial: true, Procs: 16, Engine: "SCHED", Budget: engine.Budget(100*time.Second, 8*time.Minute)})
 	engine.Explore(func(x *engine.X) { p1Session(x, []sharing.ID{1, 2}) }, engine.Opts{Name: "P1-session-n2", DevBound: 2 + eb, Serial: true, Procs: 16, Engine: "SCHED", Budget: engine.Budget(40*time.Second, 5*time.Minute)})
 	engine.Explore(func(x *engine.X) { p1Session(x, []sharing.ID{7, 3, 64}) }, engine.Opts{Name: "P1-session-n3", DevBound: 1 + eb, Serial: true, Procs: 16, Engine: "SCHED", Budget: engine.Budget(60*time.Second, 8*time.Minute)})
+	{
+		ids := []proto.ID{1, 2, 3}
+		ac := proto.Threshold(2, ids...)
+		cases := []*proto.Case{
+			proto.AorCase([]proto.ID{7, 3, 64}),
+			proto.GennaroCase("T23", ac, ids),
+			proto.CanettiCase("T23", ac, ids),
+			proto.RedistributeCase("refresh-T23", ac, ids, ac, 0),
+			proto.Lindell22Case("T23-q12", ac, []proto.ID{1, 2}, []byte("m")),
+			proto.Lindell22Case("T23-q123", ac, ids, []byte("m")),
+		}
+		for i, c := range cases {
+			if !engine.Thorough() && (i == 2 || i == 3 || i == 5) {
+				continue // quick: aor, Gennaro, Lindell22 (2-party quorum); thorough adds Canetti, redistribution, 3-party signing
+			}
+			engine.Explore(p1Case(c), engine.Opts{Name: "P1-" + c.Name, DevBound: 1, Serial: true, Procs: 16, CrashTrace: true, Engine: "SCHED", Budget: engine.Budget(60*time.Second, 6*time.Minute)})
+		}
+	}
 	engine.Explore(racePass, engine.Opts{Name: "free-running-race-pass", Serial: true})
 	if engine.Thorough() {
 		engine.Explore(func(x *engine.X) { e1(x, 4) }, engine.Opts{Name: "E1-echo-n4", DevBound: 1, Serial: true, Procs: 16, Engine: "SCHED", Budget: 6 * time.Minute})
